@@ -31,6 +31,8 @@ fn tweak() -> impl Strategy<Value = (Tweaks, String)> {
         // the classic bookkeeping slips: the fee declared but not paid / paid twice, the mint applied with the wrong sign
         2 => prop::sample::select(vec![1i8, -1, 2]).prop_map(|k| (Tweaks { change_plus_fee: k, ..Default::default() }, "fee-not-paid-or-paid-twice".to_string())),
         2 => Just((Tweaks { mint_sign_flip: true, ..Default::default() }, "mint-applied-with-opposite-sign".to_string())),
+        // an asset whose real total passes 2^63-1 on one side although every single quantity fits (the recipe is fitted below)
+        2 => (asset(), prop_oneof![1u64..1_000_000, Just(1u64), Just(i64::MAX as u64), Just(1u64 << 62)]).prop_map(|((p, n), q)| (Tweaks { phantom_first: vec![(p, n, q)], ..Default::default() }, "total-beyond-i64-over-two-outputs".to_string())),
         1 => Just((Tweaks { no_outputs: true, ..Default::default() }, "no-outputs-all-to-fee".to_string())),
         1 => Just((Tweaks { zero_coin_output: true, ..Default::default() }, "zero-coin-output".to_string())),
     ]
@@ -129,7 +131,29 @@ pub fn run(s: &Session) {
     s.forall(
         "value-conservation",
         s.pick(60_000, 1_500_000),
-        || (gen::spec_early(), tweak()).prop_map(|(spec, (tw, kind))| Case { spec, tw, kind }),
+        || {
+            (gen::spec_early(), tweak()).prop_map(|(mut spec, (tw, kind))| {
+                // fit the recipe to the "total beyond i64" tweak: one input holds 2^63-1 of the asset, nothing else moves it,
+                // the whole of it goes to the change output, and the first of (at least) two outputs adds the phantom part
+                if let Some(&(p, n, _)) = tw.phantom_first.first() {
+                    let same = |a: &(u8, u8, u64)| a.0 == p && a.1 % 6 == n % 6;
+                    for i in spec.inputs.iter_mut() {
+                        i.assets.retain(|a| !same(a));
+                    }
+                    spec.mint.retain(|m| !(m.0 == p && m.1 % 6 == n % 6));
+                    spec.inputs[0].assets.push((p, n, i64::MAX as u64));
+                    while spec.outputs.len() < 2 {
+                        let o = spec.outputs[0].clone();
+                        spec.outputs.push(o);
+                    }
+                    spec.outputs[0].asset_share = 0;
+                    if !spec.era.multiasset() {
+                        spec.early_multiasset = true;
+                    }
+                }
+                Case { spec, tw, kind }
+            })
+        },
         check,
     );
 }
